@@ -178,6 +178,12 @@ fn gen_case(r: &mut Rng, depth: u32) -> Option<fol::Formula> {
     o.depth = depth;
     o.max_chain = 4;
     o.consts = vec![("c".into(), Sort::G), ("n".into(), Sort::I), ("sy".into(), Sort::S), ("m".into(), Sort::I)];
+    if r.chance(1, 4) {
+        // variable and constant names that end like the sort tags of the rendering
+        o.vars = vec![("N".into(), "$i".into()), ("N_i".into(), "$i".into()), ("X".into(), "".into()), ("X_g".into(), "".into()), ("S".into(), "$s".into()), ("S_s".into(), "$s".into()), ("N_i".into(), "".into())];
+        o.consts.push(("n_i".into(), Sort::I));
+        o.consts.push(("c_g".into(), Sort::G));
+    }
     let mut text = gen_formula(r, &o, depth);
     if r.chance(1, 5) {
         // every relation between every pair of statically sorted operands (the rendering chooses
@@ -203,6 +209,19 @@ fn gen_case(r: &mut Rng, depth: u32) -> Option<fol::Formula> {
             2 => format!("({cmp}) -> q(a)"),
             3 => format!("forall N$i S$s X Y$g ({cmp})"),
             _ => cmp,
+        };
+    }
+    if r.chance(1, 10) {
+        // two variables of one sort in one scope whose names differ by the sort tag of the
+        // rendering (N and N_i, X and X_g, S and S_s): they must stay two variables
+        let (a, b) = [("N$i", "N_i$i"), ("X", "X_g"), ("S$s", "S_s$s"), ("N_i$i", "N_i_i$i")][r.upto(4)];
+        let atom = |r: &mut Rng, v: &str| -> String { [format!("p({v})"), format!("q({v})"), format!("{v} != 1"), format!("r({v}, 0)")][r.upto(4)].clone() };
+        let rel = ["<", "!=", "=", ">="][r.upto(4)];
+        text = match r.below(4) {
+            0 => format!("forall {a} {b} ({a} {rel} {b} -> {})", atom(r, a)),
+            1 => format!("exists {a} {b} ({} and not {})", atom(r, a), atom(r, b)),
+            2 => format!("forall {a} ({} -> exists {b} ({b} {rel} {a} and {}))", atom(r, a), atom(r, b)),
+            _ => format!("exists {b} ({} and forall {a} ({} or {a} {rel} {b}))", atom(r, b), atom(r, a)),
         };
     }
     if r.chance(1, 10) {
